@@ -192,6 +192,8 @@ def run_model(ops, tag='ops'):
 
 def correspondence(ops, tag='ops'):
     """Run implementation and model on the same op lines. Returns dict with counts, mismatches, distribution."""
+    if not ops:
+        return {'ops': 0, 'mismatches': [], 'by_op': {}, 'impl_errors': {}, 'distinct_ops': 0}
     drv = py_driver()
     impl = [drv.run(l) for l in ops]
     model = run_model(ops, tag)
